@@ -151,6 +151,7 @@ def shapes(tier):
            enum_shape("one_letter", ["A", "B", "b", "Cd"]),
            enum_shape("digits", ["V2", "Http2", "v2x"]),
            enum_shape("raw_ident", ["r#fn", "r#Type", "Plain"]),
+           enum_shape("raw_ident_case_group", ["r#type", "Type", "r#fn", "FN", "Mod"]),
            enum_shape("prefixes", ["Ab", "Abc", "ABCD", "abcd"]),
            error_text_shape()]
     if tier == "quick":
